@@ -68,48 +68,50 @@
  *    strcmp_s()
  */
 
-/* TODO: bounds check */
-static int compare_right(char const *a, char const *b) {
+/* a is bounded by alen, behind it the string counts as ended */
+static int compare_right(char const *a, size_t alen, char const *b) {
     int bias = 0;
 
     /* The longest run of digits wins.  That aside, the greatest
        value wins, but we can't know that it will until we've scanned
        both numbers to know that they have the same magnitude, so we
        remember it in BIAS. */
-    for (;; a++, b++) {
-        if (!isdigit((int)*a) && !isdigit((int)*b))
+    for (;; a++, b++, alen--) {
+        const char ca = alen ? *a : '\0';
+        if (!isdigit((int)ca) && !isdigit((int)*b))
             return bias;
-        if (!isdigit((int)*a))
+        if (!isdigit((int)ca))
             return -1;
         if (!isdigit((int)*b))
             return +1;
-        if (*a < *b) {
+        if (ca < *b) {
             if (!bias)
                 bias = -1;
-        } else if (*a > *b) {
+        } else if (ca > *b) {
             if (!bias)
                 bias = +1;
-        } else if (!*a && !*b)
+        } else if (!ca && !*b)
             return bias;
     }
 
     return 0;
 }
 
-/* TODO: bounds check */
-static int compare_left(char const *a, char const *b) {
+/* a is bounded by alen, behind it the string counts as ended */
+static int compare_left(char const *a, size_t alen, char const *b) {
     /* Compare two left-aligned numbers: the first to have a
        different value wins. */
-    for (;; a++, b++) {
-        if (!isdigit((int)*a) && !isdigit((int)*b))
+    for (;; a++, b++, alen--) {
+        const char ca = alen ? *a : '\0';
+        if (!isdigit((int)ca) && !isdigit((int)*b))
             return 0;
-        if (!isdigit((int)*a))
+        if (!isdigit((int)ca))
             return -1;
         if (!isdigit((int)*b))
             return +1;
-        if (*a < *b)
+        if (ca < *b)
             return -1;
-        if (*a > *b)
+        if (ca > *b)
             return +1;
     }
     return 0;
@@ -147,8 +149,12 @@ EXPORT errno_t _strnatcmp_s_chk(const char *dest, rsize_t dmax, const char *src,
         cb = src[bi];
 
         /* skip over leading spaces or zeros */
-        while (isspace((int)ca))
-            ca = dest[++ai];
+        while (isspace((int)ca)) {
+            /* nothing but white space left inside dmax: no difference */
+            if (++ai >= dmax)
+                return RCNEGATE(EOK);
+            ca = dest[ai];
+        }
 
         while (isspace((int)cb))
             cb = src[++bi];
@@ -158,11 +164,13 @@ EXPORT errno_t _strnatcmp_s_chk(const char *dest, rsize_t dmax, const char *src,
             fractional = (ca == '0' || cb == '0');
 
             if (fractional) {
-                if ((*resultp = compare_left(dest + ai, src + bi)) != 0) {
+                if ((*resultp = compare_left(dest + ai, dmax - ai,
+                                             src + bi)) != 0) {
                     return RCNEGATE(EOK);
                 }
             } else {
-                if ((*resultp = compare_right(dest + ai, src + bi)) != 0)
+                if ((*resultp = compare_right(dest + ai, dmax - ai,
+                                              src + bi)) != 0)
                     return RCNEGATE(EOK);
             }
         }
